@@ -114,6 +114,16 @@ FIXED.append(
                   'Sheet1!E1': ['call', 'SUM', [['ref', 'B1'],
                                                 ['range', 'A1:A2']]]},
      'sheets': ['Sheet1'], 'setvals': [5, 0.5]})
+FIXED.append(
+    # a range with HOLES: A2 and B1 are no cells at all when the range is
+    # first evaluated; filling one later must reach every consumer of the
+    # rectangle (and of the single cell)
+    {'inputs': {'Sheet1!A1': 2, 'Sheet1!A2': None, 'Sheet1!B1': None,
+                'Sheet1!B2': 4},
+     'formulas': {'Sheet1!C1': ['call', 'SUM', [['range', 'A1:B2']]],
+                  'Sheet1!C2': ['call', 'COUNT', [['range', 'A1:A2']]],
+                  'Sheet1!C3': ['op', '+', ['ref', 'A2'], ['ref', 'C1']]},
+     'sheets': ['Sheet1'], 'setvals': [5, 0.5]})
 for _m in FIXED:
     _m['order'] = list(_m['formulas'])
 PLACEHOLDER = 987654321
